@@ -5,11 +5,12 @@ import numpy as np
 
 import romsfiles as rf
 import run_ladim as rl
+import setup_impl as su
 import sim_impl as si
 
 PROP = "C10"
 THEOREM_FILE = "Props/C10.v"
-CHECKER = "Corr.SimInst"
+CHECKER = "Corr.SysRun"
 SHARD = 6
 RULE = ("Paired real runs through ladim.main.main: a time-reversed run from S and the forward run over the mirrored time "
         "axis with sign-flipped velocity frames and mirrored release times. (a) EF scenarios with a frame at every step "
@@ -38,6 +39,10 @@ def gen_cases(ctx):
                     "u": [[rng.choice([0.0, 0.5, 1.0, -0.5, 1.5]) for _ in range(si.NLEV)] for _ in steps],
                     "rel": rel, "continuous": rng.choice([0, 0, 1, 2]), "p": rng.choice([1, 2]), "seed": rng.randrange(10**6),
                     "offgrid": rng.random() < 0.4})
+    # whole set-ups (Model/Setup.v): the run and the run of the mirrored files / table / clock, both against the
+    # model compiled in Coq from the description of the files (and against Setup.mirror_setup of the description)
+    for q in range(6 if ctx.quick else 60):
+        out.append({"k": "setup", "setup": su.gen_setup(rng, rev=(q % 3 != 2)), "seed": rng.randrange(10**6)})
     return out
 
 
@@ -45,11 +50,15 @@ def eval_case(desc, ctx):
     d = ctx.subdir("c10")
     for f in d.glob("*"):
         f.unlink()
+    if desc["k"] == "setup":
+        cases, problems, nt = su.eval_setup(desc["setup"], d, [(1, 0)])
+        return {"ints": cases, "oracle": "; ".join(problems[:3]) or None, "nontrivial": (desc["seed"], "setup") if nt else None,
+                "kind": "setup-mirror-" + ("rev" if desc["setup"]["rev"] else "fwd"), "observed": {"frames": desc["setup"]["fsteps"]}}
     if desc["k"] == "mirror-ef":
         env = desc["env"]
         fwd, _, _ = si.run_forward(d, env, "fwd")
         rev, S = si.run_reversed(d, env, "rev")
-        ints = si.enc_env(env) + [2] + si.enc_run(0, 0, fwd) + si.enc_run(0, 0, rev)
+        ints = [0] + si.enc_env(env) + [2] + si.enc_run(0, 0, fwd) + si.enc_run(0, 0, rev)
         problems = compare(fwd, rev, S, 50000)
         nt = (desc["seed"],) if len({r[0] for r in env["rows"]}) > 1 and len({tuple(u) for u in env["utab"]}) > 1 else None
         return {"ints": ints, "oracle": "; ".join(problems[:3]) or None, "nontrivial": nt, "kind": "mirror-ef",
